@@ -36,6 +36,8 @@ CLAUSES = [
      "shifted view with the same pitch, channel and velocity, and the returned flag is the shift flag",
      ["SCoda.Notes.transposeSeq_note_ons", "SCoda.Notes.normalise_note_ons", "SCoda.Notes.toAbs_note_ons"]),
 ]
+D24_EXAMPLE = {"rel": [G.pm(ON, 0, None, note=60, vel=64), G.pm(WAIT, 0, 12), G.pm(OFF, 0, None, note=60), G.pm(WAIT, 0, 12)], "by": 2, "bar": None,
+               "aliased": 2}
 RULE = ("well-formed sequences with key signatures, pitches near both range limits, x intervals -200..200 incl. 0 and multiples "
         "of 12; bars with and without key; non-trivial = has notes and interval != 0")
 ASSUMPTIONS = ["models: SCoda.transposeRel / Seq.transposeSeq / Gen.transposeKey, tied by correspondence",
@@ -54,6 +56,9 @@ def o_transpose(inp):
     by = inp["by"]
     bar_sig = inp.get("bar")
     s = P.seq_in_state(rel, inp.get("state", "rel"))
+    if inp.get("aliased"):
+        s = P.seq_aliased(rel, inp["aliased"])          # the content is `rel` repeated; every message object occurs that often
+        rel = rel * inp["aliased"]
     fails = []
     target = s
     b = None
@@ -91,6 +96,12 @@ def o_transpose(inp):
             tb, _ = rel_timed(back)
             if sorted(notes_of(tb)) != sorted(nin):
                 fails.append(("inverse", "transposing back did not restore the notes"))
+            kb = [(t, m[KEY]) for t, m in tb if m[TY] == KEYSIG]
+            k0 = [(t, m[KEY]) for t, m in tin if m[TY] == KEYSIG]
+            if kb != k0:
+                fails.append(("inverse-keys", f"transposing back did not restore the key signatures: {k0} -> {kb}"))
+            if b is not None and bar_sig[2] is not None and (b.key_signature is None or KEY_IDX[b.key_signature] != bar_sig[2]):
+                fails.append(("inverse-keys", f"transposing back did not restore the bar's key: {bar_sig[2]} -> {b.key_signature}"))
             target.transpose(by)
         except Exception as e:
             fails.append(("inverse", f"raised {type(e).__name__}"))
@@ -115,9 +126,34 @@ def o_transpose(inp):
 def setup(ctx):
     ctx.oracle("transpose", o_transpose)
 
+    def kf_d24(f):
+        # the sequence holds the same Message objects more than once (built by concatenate with a repeated / its own argument)
+        return bool(f["input"].get("aliased"))
+    ctx.kf_predicates["D24a"] = kf_d24
+    import json as _json
+    import os as _os
+    with open(_os.path.join(_os.path.dirname(_os.path.dirname(_os.path.dirname(_os.path.abspath(__file__)))), "known_findings.json")) as _f:
+        _pairs = {tuple(x) for x in next(x for x in _json.load(_f)["findings"] if x["id"] == "D29")["key_interval_pairs"]}
+
+    def kf_d29(f):
+        # a key (of a key-signature event or of the bar) whose transposition there and back is another spelling: recorded (key, interval) pairs
+        if f["clause"] != "inverse-keys":
+            return False
+        by = f["input"]["by"]
+        r = by % 12 if by % 12 <= 11 else by
+        cands = {r, r - 12}
+        keys = [m[9] for m in f["input"]["rel"] if m[0] == KEYSIG and m[9] is not None]
+        if f["input"].get("bar") and f["input"]["bar"][2] is not None:
+            keys.append(f["input"]["bar"][2])
+        return any((k, c) in _pairs for k in keys for c in cands)
+    ctx.kf_predicates["D29"] = kf_d29
+
 
 def generate(ctx):
     rng = ctx.rng
+    ctx.check("transpose", {"rel": [G.pm(KEYSIG, 0, None, key=12), G.pm(ON, 0, None, note=60, vel=64), G.pm(WAIT, 0, 12), G.pm(OFF, 0, None, note=60)],
+                            "by": 1, "bar": None})        # D29: Db + 1 - 1 = C#
+    ctx.check("transpose", D24_EXAMPLE)         # the recorded instance of the known finding (message objects shared through concatenate)
     for i in range(ctx.n(400, 12000)):
         pitches = rng.choice([[21, 22, 30], [108, 107, 100], [60, 64, 67], list(range(21, 109, 7)), [21, 108]])
         rel, notes = G.gen_wf_rel(rng, pitches=pitches, channels=(0,), max_tick=90, max_dur=30)
